@@ -235,6 +235,39 @@ out :
 	free (audio) ; mv_free (&m) ;
 }
 
+/* Channel-map census: AIFF and CAF store a channel map as a layout tag, so only the layouts of the library's table can be stored; SFC_SET_CHANNEL_MAP_INFO
+** says which (SF_TRUE).  Every tuple over the position codes is offered for 1-4 channels, and for 5-6 channels every tuple over the codes that occurred in an
+** accepted smaller layout; each accepted layout is then written, closed, re-opened and must come back unchanged. */
+static void chanmap_census (int format, int ch)
+{	static int acc [4000][8] ; static unsigned char seen [64] ; int nacc = 0, idx [8], k, a, nalpha, alpha [64] ; MEMF pm ; SNDFILE *p ; const char *fn = vh_fname (format) ; long offered = 0 ;
+	if (ch <= 4 || !seen [SF_CHANNEL_MAP_LEFT]) { nalpha = 0 ; for (a = 1 ; a < SF_CHANNEL_MAP_MAX ; a++) alpha [nalpha++] = a ; }
+	else { nalpha = 0 ; for (a = 1 ; a < SF_CHANNEL_MAP_MAX ; a++) if (seen [a]) alpha [nalpha++] = a ; }
+	memset (&pm, 0, sizeof (pm)) ; p = vh_open_w (&pm, format, ch, 44100, NULL) ; if (!p) return ;
+	memset (idx, 0, sizeof (idx)) ;
+	for (;;)
+	{	int map [8] ; for (k = 0 ; k < ch ; k++) map [k] = alpha [idx [k]] ;
+		offered++ ;
+		if (sf_command (p, SFC_SET_CHANNEL_MAP_INFO, map, ch * (int) sizeof (int)) == SF_TRUE && nacc < 4000) { memcpy (acc [nacc++], map, sizeof (int) * ch) ; for (k = 0 ; k < ch ; k++) seen [map [k]] = 1 ; }
+		for (k = ch - 1 ; k >= 0 ; k--) { if (++idx [k] < nalpha) break ; idx [k] = 0 ; }
+		if (k < 0) break ;
+		}
+	sf_close (p) ; mv_free (&pm) ;
+	vh_stat ("channel_maps_offered", offered) ; vh_stat ("channel_maps_accepted", nacc) ;
+	for (a = 0 ; a < nacc ; a++)
+	{	MEMF m ; SNDFILE *s ; SF_INFO ri ; short d [8 * 8] = { 0 } ; int got [8], rc ;
+		memset (&m, 0, sizeof (m)) ; s = vh_open_w (&m, format, ch, 44100, NULL) ; if (!s) break ;
+		rc = sf_command (s, SFC_SET_CHANNEL_MAP_INFO, acc [a], ch * (int) sizeof (int)) ; sf_writef_short (s, d, 8) ; sf_close (s) ;
+		s = vh_open_r (&m, format, ch, 44100, &ri) ;
+		if (!s) { vh_viol (vh_key ("C12|reopen-failed|%s|channel-map-census", fn), "ch=%d layout %d: %s", ch, a, sf_strerror (NULL)) ; mv_free (&m) ; continue ; }
+		memset (got, 0, sizeof (got)) ;
+		if (rc != SF_TRUE || sf_command (s, SFC_GET_CHANNEL_MAP_INFO, got, ch * (int) sizeof (int)) != SF_TRUE || memcmp (got, acc [a], sizeof (int) * ch))
+			vh_viol (vh_key ("C12|chanmap-changed|%s|census|ch%d", fn, ch), "layout {%d,%d,%d,%d,%d,%d} was accepted (SF_TRUE), after re-open SFC_GET_CHANNEL_MAP_INFO gives {%d,%d,%d,%d,%d,%d}", acc [a][0], ch > 1 ? acc [a][1] : 0, ch > 2 ? acc [a][2] : 0, ch > 3 ? acc [a][3] : 0, ch > 4 ? acc [a][4] : 0, ch > 5 ? acc [a][5] : 0, got [0], got [1], got [2], got [3], got [4], got [5]) ;
+		else vh_stat ("channel_map_layouts_round_tripped", 1) ;
+		vh_distinct (vh_fnv (vh_fnv (0, acc [a], sizeof (int) * ch), &format, 4) ^ 0xC4A) ;
+		sf_close (s) ; mv_free (&m) ;
+		}
+}
+
 int main (int argc, char **argv)
 {	static const int majors [] = { SF_FORMAT_WAV, SF_FORMAT_WAVEX, SF_FORMAT_RF64, SF_FORMAT_AIFF, SF_FORMAT_CAF, SF_FORMAT_AU, SF_FORMAT_W64, SF_FORMAT_WAV | SF_ENDIAN_BIG } ;
 	static const int subs [] = { SF_FORMAT_PCM_16, SF_FORMAT_FLOAT, SF_FORMAT_PCM_24, SF_FORMAT_ULAW } ;
@@ -253,6 +286,12 @@ int main (int argc, char **argv)
 			if (k % 30 == 7) vh_sample ("%s ch=%d: items set before audio mask=0x%x (1 strings,2 bext,4 cart,8 cues,16 instrument,32 channel map) in shuffled order, items set after audio mask=0x%x", vh_fname (format), c, mask, late) ;
 			run_case (format, c, mask, late, (int) (vh_rnd () & 0xffff)) ;
 			}
+		}
+	{	static const int cf [] = { SF_FORMAT_CAF | SF_FORMAT_PCM_16, SF_FORMAT_AIFF | SF_FORMAT_PCM_16 } ; int g, ch ;
+		/* one case per format: the census of the smaller channel counts feeds the alphabet of the larger ones, so the channel counts run inside the case */
+		for (g = 0 ; g < 2 ; g++) if (vh_case ("%s channel-map census", vh_fname (cf [g])))
+		{	vh_sample ("%s: every tuple of position codes offered as a channel map for 1-%d channels; each layout the library accepts is written, closed, re-opened and compared", vh_fname (cf [g]), vh_thorough ? 6 : 5) ;
+			for (ch = 1 ; ch <= (vh_thorough ? 6 : 5) ; ch++) chanmap_census (cf [g], ch) ; }
 		}
 	return vh_finish () ;
 }
